@@ -117,15 +117,19 @@ func verifOpsShape(ops []verifOp, baseLen, bs, limit int) (int, bool) {
 }
 
 // verifReconstruct is the harness' own patch: literal data is appended, block
-// i of the base is base[i*bs : min((i+1)*bs, len(base))].
-func verifReconstruct(base []byte, bs int, ops []verifOp) []byte {
-	var out []byte
+// i of the base is base[i*bs : min((i+1)*bs, len(base))].  ok is false when an
+// operation names a block the base does not have.
+func verifReconstruct(base []byte, bs int, ops []verifOp) (out []byte, ok bool) {
 	for _, o := range ops {
 		if len(o.data) > 0 {
 			out = append(out, o.data...)
 			continue
 		}
-		for i := o.start; i < o.start+o.count; i++ {
+		for k := uint64(0); k < o.count; k++ {
+			i := o.start + k
+			if bs <= 0 || i >= uint64(len(base)) || int(i)*bs >= len(base) {
+				return nil, false
+			}
 			lo := int(i) * bs
 			hi := lo + bs
 			if hi > len(base) {
@@ -134,7 +138,13 @@ func verifReconstruct(base []byte, bs int, ops []verifOp) []byte {
 			out = append(out, base[lo:hi]...)
 		}
 	}
-	return out
+	return out, true
+}
+
+// verifYields: applying ops to base gives exactly target.
+func verifYields(base []byte, bs int, ops []verifOp, target []byte) bool {
+	out, ok := verifReconstruct(base, bs, ops)
+	return ok && verifSame(out, target)
 }
 
 func verifSame(a, b []byte) bool {
